@@ -776,7 +776,14 @@ func (r *Router) processEvent(ev *types.Event, reqID interface{}) error {
 			}
 
 			// If the span was kept, we want to generate a probe that we'll forward
-			// to a peer IF this span would have been forwarded.
+			// to a peer IF this span would have been forwarded. The kept span
+			// itself is already queued in the upstream transmission, which
+			// reads its destination and serializes its data only when the batch
+			// is sent, so the probe has to be a separate event: marking and
+			// re-addressing the queued one would leak the probe marker to
+			// Honeycomb and send the kept span (and its whole batch) to the peer.
+			probe := *ev
+			ev = &probe
 			ev.Data.MetaRefineryProbe.Set(true)
 			isProbe = true
 		}
